@@ -41,4 +41,17 @@ ScrMore == { << <<L(1,1), C(1), L(1,2)>>, <<L(1,3), A(3), C(3)>>, <<A(1), C(2)>>
              << <<L(1,1), L(3,2)>>, <<C(1), C(2)>>, <<L(1,3), C(3)>> >> }
 ScrAll == ScrDeadlock \cup ScrStuck \cup ScrClosedRead \cup ScrMix3 \cup ScrRace \cup ScrBindFail \cup ScrBindRetry
 ScrThorough == ScrAll \cup ScrMore
+\* liveness runs: no schedule history (cfg: Step <- StepNoHist), so the state graph is finite without a VIEW, which TLC's
+\* liveness checker does not support
+StepNoHist(p, l) == tr' = tr
+\* C13, liveness form: under weak fairness of the API threads and the listener goroutines every call returns, except
+\* calls that legitimately wait for traffic on an open handle; and that situation is stable
+Settled == \A t \in Threads : (pc[t] = "idle" /\ ~HasOp(t)) \/ Parked(t)
+EventuallySettled == <>[]Settled
+\* a call that is not waiting for traffic never stays pending for ever
+NoStarvation == \A t \in Threads : [](HasOp(t) => <>(~HasOp(t) \/ Parked(t) \/ pc[t] = "idle"))
+\* once every handle is closed and every call has returned, the accept/read goroutines end (liveness form of C12's "nothing
+\* keeps running")
+GoroutinesEnd == [](AllHandlesClosed /\ AllDone => <>(\A g \in Socks : gor[g].pc \in {"none", "done"}))
+ScrLive == ScrDeadlock \cup ScrStuck \cup ScrRace \cup ScrBindRetry
 ===============================================================================
